@@ -47,6 +47,16 @@ impl SysModel {
                 }
                 true
             }
+            Op::RClear(s, e) => {
+                let Some(r) = self.r.as_mut() else { return false };
+                if *s >= r.len || s >= e {
+                    return false;
+                }
+                for i in *s..(*e).min(r.len) {
+                    r.held.remove(&i);
+                }
+                true
+            }
             Op::RReopen | Op::RGet(_) | Op::RBad(..) => self.r.is_some(),
             _ => self.w.apply(op),
         }
@@ -165,6 +175,13 @@ impl Sys {
                 }
                 guard(rp.c().get(*i)).map(OpRes::Got)
             }
+            Op::RClear(s, e) => {
+                let rp = self.rp.as_mut().expect("replica");
+                if rp.core.is_none() {
+                    return Out::Err("harness: core not open".into());
+                }
+                guard(rp.c().clear(*s, *e)).map(|_| OpRes::Unit)
+            }
             _ => {
                 let n = self.m.w.len();
                 exec_writer(&mut self.wr, op, n)
@@ -212,10 +229,10 @@ pub fn check_result(op: &Op, out: &Out<OpRes>, before: &SysModel, after: &SysMod
                 }
             }
         }
-        Op::Clear(..) | Op::Reopen | Op::RReopen => match out {
+        Op::Clear(..) | Op::RClear(..) | Op::Reopen | Op::RReopen => match out {
             Out::Ok(OpRes::Unit) => None,
             _ => bad(
-                if matches!(op, Op::Clear(..)) { "clear-result" } else { "open-fails" },
+                if matches!(op, Op::Clear(..) | Op::RClear(..)) { "clear-result" } else { "open-fails" },
                 "Ok".into(),
             ),
         },
@@ -287,6 +304,8 @@ pub struct Cx<'a> {
     pub img_before: &'a Image,
     pub jstart: usize,
     pub nops_start: u64,
+    /// storage-operation count of the writer's world before the op (for faults on the serving side)
+    pub wr_nops_start: u64,
     /// number of ops of the fixed prefix at the start of hist
     pub prefix_len: usize,
 }
@@ -450,6 +469,7 @@ impl<'a> E1<'a> {
                 let w = t.w.lock().unwrap();
                 (w.files.clone(), w.journal.len(), w.nops)
             };
+            let wr_nops_start = env::nops(&sys.wr.w);
             let out = sys.exec(op);
             let mut cx = Cx {
                 hist: &full[..pl + k + 1],
@@ -459,6 +479,7 @@ impl<'a> E1<'a> {
                 img_before: &img_before,
                 jstart,
                 nops_start,
+                wr_nops_start,
                 prefix_len: pl,
             };
             v.visit(&mut cx);
